@@ -289,7 +289,13 @@ def run(ctx, anchors=None):
     a0 = None
     for (cf_, cn_) in calls:
         try:
-            ax = X.eval_expr(cf_, cn_["args"][0])
+            arg0 = cn_["args"][0]
+            a_ = arg0
+            while a_ is not None and a_.get("k") in ("cast", "paren"):
+                a_ = a_["e"]
+            if a_ is not None and a_.get("k") == "ref" and a_.get("dk") == "local" and astq.single_defs(cf_).get(a_.get("d")) is not None:
+                arg0 = astq.single_defs(cf_)[a_["d"]]      # a write-once local holding the masked byte (one level: `control` itself stays an atom)
+            ax = X.eval_expr(cf_, arg0)
         except symx.Unsupported as e:
             raise AnalysisBroken("R05.1: leaf version argument: %s" % e)
         masked = isinstance(ax, tuple) and ax[0] == "ap" and ax[1] == "&" and len(ax) == 4 and ax[3] == C(0xfe) and isinstance(ax[2], tuple) and ax[2][:2] == ("ap", "[]") and ax[2][3] == C(0)
